@@ -548,26 +548,51 @@ func neo3Part(legacy bool) {
 		}
 		m := n - (n-1)/3
 		out := polyenv.Key(399)
-		A := on.NewNeo3Set(m, polyenv.KeysFrom(300, n), out)
-		B := on.NewNeo3Set(m, polyenv.KeysFrom(320, n), out)
-		L := B
-		if m > 1 {
-			L = on.NewNeo3Set(m-1, polyenv.KeysFrom(300, n), out)
-		}
 		chain := uint64(300 + n)
-		w := baseWorld()
-		must(on.RegisterSideChain(w, vals, chain, router, name, []byte{5, 0, 0, 0}, on.MagicBytes(magic)), "register "+name)
-		must(on.RegisterStateValidators(w, vals, A.PubHex, 0), "state validators")
-		d := w.Dump()
-		w.Close()
+		if legacy {
+			chain += 50
+		}
 		var root [32]byte
 		root[0] = 0xef
-		sr, msg := on.Neo3StateRootUnsigned(88, root, magic)
-		sigs := map[string]*on.Neo3Sigs{"tracked": A.Sign(msg), "otherkeys": B.Sign(msg), "lowthreshold": L.Sign(msg)}
-		script := map[string][]byte{"tracked": A.Script, "otherkeys": B.Script, "lowthreshold": L.Script}
+		var pubHex []string
+		script := map[string][]byte{}
+		var inv func(by string, l []on.Sig) []byte
+		var wire func(inv, ver []byte) []byte
+		if legacy {
+			A := on.NewNeo3LSet(m, polyenv.KeysFrom(300, n), out)
+			B := on.NewNeo3LSet(m, polyenv.KeysFrom(320, n), out)
+			L := B
+			if m > 1 {
+				L = on.NewNeo3LSet(m-1, polyenv.KeysFrom(300, n), out)
+			}
+			sr, msg := on.Neo3LStateRootUnsigned(88, root, magic)
+			sigs := map[string]*on.Neo3LSigs{"tracked": A.Sign(msg), "otherkeys": B.Sign(msg), "lowthreshold": L.Sign(msg)}
+			script["tracked"], script["otherkeys"], script["lowthreshold"] = A.Script, B.Script, L.Script
+			pubHex = A.PubHex
+			inv = func(by string, l []on.Sig) []byte { return sigs[by].Invocation(l) }
+			wire = func(i, v []byte) []byte { return on.Neo3LStateRootBytes(on.Neo3LStateRootWith(sr, i, v)) }
+		} else {
+			A := on.NewNeo3Set(m, polyenv.KeysFrom(300, n), out)
+			B := on.NewNeo3Set(m, polyenv.KeysFrom(320, n), out)
+			L := B
+			if m > 1 {
+				L = on.NewNeo3Set(m-1, polyenv.KeysFrom(300, n), out)
+			}
+			sr, msg := on.Neo3StateRootUnsigned(88, root, magic)
+			sigs := map[string]*on.Neo3Sigs{"tracked": A.Sign(msg), "otherkeys": B.Sign(msg), "lowthreshold": L.Sign(msg)}
+			script["tracked"], script["otherkeys"], script["lowthreshold"] = A.Script, B.Script, L.Script
+			pubHex = A.PubHex
+			inv = func(by string, l []on.Sig) []byte { return sigs[by].Invocation(l) }
+			wire = func(i, v []byte) []byte { return on.Neo3StateRootBytes(on.Neo3StateRootWith(sr, i, v)) }
+		}
+		w := baseWorld()
+		must(on.RegisterSideChain(w, vals, chain, router, name, []byte{5, 0, 0, 0}, on.MagicBytes(magic)), "register "+name)
+		must(on.RegisterStateValidators(w, vals, pubHex, 0), "state validators")
+		d := w.Dump()
+		w.Close()
 		nr := neoRouter{name: name, chain: chain, m: m, n: n, proofMarker: "VerifyFromNeoTx error", proof: []byte{5, 9, 0, 0, 0, 0xaa, 0},
 			build: func(c neoCase) ([]byte, uint32) {
-				return on.Neo3StateRootBytes(on.Neo3StateRootWith(sr, sigs[c.by].Invocation(c.list), script[c.by])), 88
+				return wire(inv(c.by, c.list), script[c.by]), 88
 			},
 			direct: func(s *hsenv.Sim, raw []byte) error {
 				if legacy {
@@ -591,16 +616,16 @@ func neo3Part(legacy bool) {
 
 func main() {
 	r = ev.Start("C24", "exploration")
-	r.Require("accept", "reject", "ont:accept", "ont:reject", "neo:accept", "neo:reject", "neo3:accept", "neo3:reject")
+	r.Require("accept", "reject", "ont:accept", "ont:reject", "neo:accept", "neo:reject", "neo3:accept", "neo3:reject", "neo3legacy:accept", "neo3legacy:reject")
 	vals = polyenv.Keys(4)
 	polyenv.Setup(0, vals)
 	polyenv.InstallHeightLedger()
 	ontPart()
 	neoPart()
 	neo3Part(false)
+	neo3Part(true)
 	r.Assume("ECDSA P-256 / SHA-256 are sound (a signature made over another message or by another key never verifies)",
-		"the NEO / NEO N3 handlers' verdict on the signatures is read from the stage at which ImportOuterTransfer fails (no valid MPT proof is synthesised); the exported verifier is evaluated directly as well",
-		"NEO N3 legacy router shares the NEO N3 code modulo the client library; it is exercised only if listed in routers_covered")
+		"the NEO / NEO N3 handlers' verdict on the signatures is read from the stage at which ImportOuterTransfer fails (no valid MPT proof is synthesised); the exported verifier is evaluated directly as well")
 	var vk []string
 	for k := range viols {
 		vk = append(vk, k)
@@ -618,7 +643,7 @@ func main() {
 	fmt.Println("outcomes:", c)
 	r.Finish(map[string]any{
 		"rule":            "accepted ⇒ |distinct tracked members with a valid signature| ≥ required (ONT ceil(N/3) at the greatest key height below the message; NEO/N3: tracked script's m and script hash == tracked)",
-		"routers_covered": []string{"ont (syncCrossChainMsg + importOuterTransfer)", "neo", "neo3"},
+		"routers_covered": []string{"ont (syncCrossChainMsg + importOuterTransfer)", "neo", "neo3", "neo3legacy"},
 		"ont_N_max":       r.QT(6, 9),
 		"neo_sets":        "1of2,2of3,3of4" + map[bool]string{true: ",3of5", false: ""}[r.Thorough()],
 		"neo3_n_max":      r.QT(4, 5),
